@@ -6,6 +6,7 @@ from rules.c14 import field_index
 from rules.c10 import fold
 from rules.c03 import sites, closure_ret, defaults, zip_rule_everywhere
 from rules import c06, c14
+from mirq.paths import Paths, Unsupported, variant_of
 
 PRIM = "embedded_graphics::primitives::"
 PS = PRIM + "primitive_style::PrimitiveStyle"
@@ -54,39 +55,58 @@ def triangle(prog, rep):
         rep.check(good, "R01.2", "triangle:generator-arg-origins", "ScanlineIterator::new arguments must come from the style fields of the same name and styled_bounding_box(style)", at=nw.span, fn=nw.path)
         rep.sample({"rule": "R01.2", "triangle_generator_args": [show(x, maxd=4) for x in a]})
     # colour by point type: Stroke -> effective_stroke_color, Fill -> fill_color in new(), next() and draw_styled()
-    pt = {v["discr"]: v["name"] for v in prog.adts[PRIM + "common::PointType"]["variants"]} if (PRIM + "common::PointType") in prog.adts else None
-    if pt is None:
-        cands = [k for k in prog.adts if k.endswith("::PointType")]
-        pt = {v["discr"]: v["name"] for v in prog.adts[cands[0]]["variants"]} if cands else {}
+    # (path summaries, loop bodies walked once: which colour is used under which established PointType)
     nx = prog.method1(IT, "next", "core::iter::traits::iterator::Iterator")
     fidx = {f["name"]: i for i, f in enumerate(prog.adts[IT]["variants"][0]["fields"])}
-    for f, key, stroke_src, fill_src in (
-            (nw, "new", ("call", "*::effective_stroke_color", "_", (P(2, "style"),)), ("field", P(2, "style"), field_index(prog, PS, "fill_color"))),
-            (ds, "draw_styled", ("call", "*::effective_stroke_color", "_", (P(2, "style"),)), ("field", P(2, "style"), field_index(prog, PS, "fill_color"))),
-            (nx, "next", ("field", P(1, "self"), fidx["stroke_color"]), ("field", P(1, "self"), fidx["fill_color"]))):
-        org = Origins(f)
+    P_ = Paths(prog, loops="once")
+    style = P(2, "style")
+    esc = lambda t: t[0] == "call" and t[1].endswith("::effective_stroke_color") and t[3] == (style,)
+    sfill = ("field", style, field_index(prog, PS, "fill_color"))
+    selff = lambda n: ("field", P(1, "self"), fidx[n])
+
+    def role_of(t, stroke, fill):
+        if t[0] == "payload":
+            t = t[1]
+        if stroke(t):
+            return "stroke"
+        if t == fill:
+            return "fill"
+        return None
+
+    def point_type(facts):
+        vs = [fct[2] for fct in facts if fct[0] == "variant" and set(fct[2]) <= {"Stroke", "Fill"}]
+        return vs[-1] if vs else None
+
+    for f, key in ((nw, "new"), (ds, "draw_styled"), (nx, "next")):
         table = {}
-        from mirq.origin import discr_guards_typed
-        for bi in sorted(org.cfg.live_blocks()):
-            for si, s in enumerate(f.body["blocks"][bi]["s"]):
-                if s["k"] != "assign":
+        bad = []
+        try:
+            summs = P_.of(f)
+        except Unsupported as e:
+            rep.fail("R01.1", "triangle:colour-by-type:" + key, "cannot summarise: %s" % e, status="undecided", at=f.span, fn=f.path)
+            continue
+        for sm in summs:
+            uses = []
+            if key == "draw_styled":
+                uses = [role_of(e[1][3][2], esc, sfill) for e in sm.calls() if e[1][1].split("::")[-1] == "fill_solid" and len(e[1][3]) == 3]
+            elif key == "next":
+                uses = [role_of(w[2], lambda t: t == selff("stroke_color"), selff("fill_color")) for w in sm.writes() if w[1] == selff("current_color")]
+            elif sm.ret is not None and sm.ret[0] == "agg" and str(sm.ret[1]).endswith("StyledPixelsIterator") and len(sm.ret[2]) > fidx["current_color"]:
+                cur = sm.ret[2][fidx["current_color"]]
+                if variant_of(cur) is None or variant_of(cur)[1] != "None":
+                    uses = [role_of(cur, esc, sfill)]
+            pt = point_type(sm.facts)
+            for u in uses:
+                if key == "new" and pt is None and any(fct[0] == "variant" and fct[2] == ("None",) and fct[1][0] == "call" and fct[1][1].endswith("Iterator>::next") for fct in sm.facts):
+                    continue  # no scanline at all: the placeholder line is empty, its colour is never used
+                if pt is None or len(pt) != 1 or u is None:
+                    bad.append("a colour is chosen without an established point type, or is neither style colour (%s / %s)" % (pt, u))
                     continue
-                v = strip_refs(org._rvalue(s["rv"], bi, si)) if s["rv"]["k"] == "use" else None
-                if v is None:
-                    continue
-                role = "stroke" if match(v, stroke_src) is not None else ("fill" if v == fill_src else None)
-                if role is None:
-                    continue
-                for adt, lit in discr_guards_typed(f, org, bi):
-                    if adt.endswith("PointType") and len(lit) == 1:
-                        table[pt.get(lit[0])] = role
-            t = f.body["blocks"][bi]["t"]
-            if t and t["k"] == "call" and t["f"].get("name") == "effective_stroke_color":
-                for adt, lit in discr_guards_typed(f, org, bi):
-                    if adt.endswith("PointType") and len(lit) == 1:
-                        table[pt.get(lit[0])] = "stroke"
-        rep.check(table == {"Stroke": "stroke", "Fill": "fill"}, "R01.1", "triangle:colour-by-type:" + key,
-                  "scanlines of type Stroke must get the (effective) stroke colour and Fill the fill colour in %s; found %s" % (key, table), at=f.span, fn=f.path, detail=table)
+                if table.get(pt[0], u) != u:
+                    bad.append("%s scanlines get two different colours" % pt[0])
+                table[pt[0]] = u
+        rep.check(table == {"Stroke": "stroke", "Fill": "fill"} and not bad, "R01.1", "triangle:colour-by-type:" + key,
+                  "scanlines of type Stroke must get the (effective) stroke colour and Fill the fill colour in %s; found %s %s" % (key, table, "; ".join(sorted(set(bad))[:2])), at=f.span, fn=f.path, detail=table)
     # stored colours
     ro = strip_refs(Origins(nw).return_origin())
     ok = ro[0] == "agg" and ro[2][fidx["fill_color"]] == ("field", P(2, "style"), field_index(prog, PS, "fill_color")) and match(ro[2][fidx["stroke_color"]], ("call", "*::effective_stroke_color", "_", (P(2, "style"),))) is not None
